@@ -20,7 +20,7 @@ var effectFreePkgs = map[string]bool{
 // standard-library packages whose functions do not write memory reachable from their arguments
 // (results are unconstrained unless a dependency spec says more). Listed in the evidence when used.
 var pureStdPkgs = map[string]bool{
-	"strings": true, "strconv": true, "unicode": true, "unicode/utf8": true, "time": true, "math": true, "math/bits": true,
+	"strings": true, "strconv": true, "sync": true, "unicode": true, "unicode/utf8": true, "time": true, "math": true, "math/bits": true,
 	"errors": true, "fmt": true, "bytes": true, "path": true, "path/filepath": true, "regexp": true, "net/mail": true, "mime": true,
 	"encoding/base64": true, "encoding/hex": true, "crypto/sha256": true, "hash": true, "github.com/google/uuid": true,
 	"golang.org/x/text/encoding/ianaindex": true, "golang.org/x/text/encoding": true,
@@ -204,11 +204,15 @@ func (vc *VC) addressOf(st *State, e ast.Expr) *Value {
 		}
 	}
 	l := vc.evalLoc(st, e)
-	if !l.isVar && l.lvl == 1 {
-		// field of a heap object whose own type is a struct: fields of embedded struct values
-		// live in the parent's components; we cannot form an interior pointer.
+	if !l.isVar {
+		// interior pointer to a field / element: opaque non-nil pointer that remembers its target
+		r := vc.fresh("addr", "Int")
+		st.assume(smtNot(smtEq(r, "0")))
+		v := intV(r, types.NewPointer(T))
+		v.Addr = &l
+		return v
 	}
-	vc.unsupported(e, "address of %s (interior pointer)", vc.nodeText(e))
+	vc.unsupported(e, "address of %s (interior pointer into a local value)", vc.nodeText(e))
 	return nil
 }
 
